@@ -56,7 +56,8 @@ class Pair(object):
         return self._cmp
 
     def _comparable(self):
-        uc = G.unique_nearest_columns(self.src, self.dst)
+        self.ties = G.column_tie_classes(self.src, self.dst)
+        uc = G.unique_nearest_columns(self.src, self.dst, classes=self.ties)
         cl = G.comparable_layers(self.src, self.dst)
         dst = self.dst
         l0 = dst.layerlist[0].name
@@ -136,6 +137,7 @@ def correspond_mapping(ctx, exe, pairs):
     nblocks = ncmp = 0
     wf_ok = wf_all = dc = dl = 0
     kinds = {}
+    tie = ctx.extra.setdefault('tie_classes_of_target_columns', {})
     for i, p in enumerate(pairs):
         mo, bl, w1, w2 = out[4 * i: 4 * i + 4]
         m = parse_bm(mo); im = impl_bm(p)
@@ -146,6 +148,18 @@ def correspond_mapping(ctx, exe, pairs):
         elif m[0] == 'ok':
             ok, uc, cl = p.comparable()
             nblocks += len(im[1]); ncmp += len(ok)
+            # ties: where nearest_spec leaves the answer open the implementation must still return AN arg-min
+            for cn, (cls, exact, near) in p.ties.items():
+                tie[cls] = tie.get(cls, 0) + 1
+                got = im[2].get(cn)
+                if cls == 'exact-tie':
+                    if got in exact: tie['exact-tie: implementation returns an exact arg-min'] = tie.get('exact-tie: implementation returns an exact arg-min', 0) + 1
+                    else: ctx.disagreement('search-meets-nearest_spec', p.case, 'one of %r' % exact[:4], 'column %r -> %r' % (cn, got))
+                elif got not in near:
+                    ctx.disagreement('search-meets-nearest_spec', p.case, 'one of %r' % near[:4], 'column %r -> %r' % (cn, got))
+            nl = p.dst.num_layers - 1
+            tie['layers compared (exact differences or clear margin)'] = tie.get('layers compared (exact differences or clear margin)', 0) + len(cl)
+            tie['layers near-tie (not compared)'] = tie.get('layers near-tie (not compared)', 0) + nl - len(cl)
             if list(m[1].keys()) != list(im[1].keys()):
                 ctx.disagreement(name, p.case, 'keys %r' % list(m[1].keys())[:6], 'keys %r' % list(im[1].keys())[:6])
             else:
@@ -164,6 +178,9 @@ def correspond_mapping(ctx, exe, pairs):
     ctx.corr_cases('model-block_mapping-vs-mulgrid.block_mapping', len(pairs), implementation_results=kinds,
                    target_blocks=nblocks, blocks_compared_tie_free=ncmp)
     ctx.corr_cases('model-block_name_list-vs-mulgrid.block_name_list', len(pairs))
+    ctx.corr_cases('search-meets-nearest_spec', len(pairs), target_columns=dict(tie))
+    ctx.hyp_met['nearest_spec on the real search: target columns unique / exact-tie (implementation returned an exact arg-min) / near-tie (within 1e-9, rounding may decide)'] = \
+        '%d / %d (%d) / %d' % (tie.get('unique', 0), tie.get('exact-tie', 0), tie.get('exact-tie: implementation returns an exact arg-min', 0), tie.get('near-tie', 0))
     ctx.hyp_met['wf (hypothesis of the mapping theorems) holds on the extracted real geometry'] = '%d of %d' % (wf_ok, wf_all)
     ctx.hyp_met['distinct column centres / distinct layer centres (hypotheses of block_mapping_self_id)'] = '%d / %d of %d' % (dc, dl, wf_all)
     if wf_ok != wf_all:
@@ -321,9 +338,68 @@ def correspond_generators(ctx, exe, jobs):
     ctx.corr_cases(name, len(used), implementation_results=res)
 
 
+def correspond_data(ctx, exe, jobs):
+    """t2data.transfer_from as a whole (public entry point) against DataTransfer.v: rock type of every block,
+    rock type list, print block, generators, in-file initial conditions.  jobs: (pair, case)."""
+    from t2data import t2data
+    name = 'model-data_transfer-vs-t2data.transfer_from'
+    lines, impl = [], []
+    for p, case in jobs:
+        dat, top, bot = O.make_model(p.src, case['gseed'], conforming_names=bool(case.get('rename')))
+        tags = {id(v): i + 1 for i, v in enumerate(dat.incon.values())}
+        encg = ','.join(enc_gen(g) for g in dat.generatorlist)
+        sblocks = ','.join('%s:%s:%s' % (vf.hexs(b.name), vf.hexs(b.rocktype.name), G.qstr(b.volume)) for b in dat.grid.blocklist)
+        rocks = ','.join(vf.hexs(r.name) for r in dat.grid.rocktypelist)
+        pb = dat.parameter['print_block']
+        inc = ','.join('%s=%d' % (vf.hexs(k), tags[id(v)]) for k, v in dat.incon.items())
+        new = t2data()
+        try:
+            new.transfer_from(dat, p.src, p.dst, top_generator=top, bottom_generator=bot,
+                              rename_generators=bool(case.get('rename')), preserve_generation_totals=bool(case.get('preserve')))
+            impl.append(('ok', [(b.name, b.rocktype.name) for b in new.grid.blocklist], [r.name for r in new.grid.rocktypelist],
+                         new.parameter['print_block'], [impl_gen(g) for g in new.generatorlist],
+                         [(k, tags.get(id(v), -1)) for k, v in new.incon.items()]))
+        except Exception as e:
+            impl.append(('raise', type(e).__name__))
+        from t2grids import t2grid
+        dgrid = t2grid().fromgeo(p.dst)
+        incols = [c.name for c in p.dst.columnlist if p.src.column_containing_point(c.centre) is not None]
+        s, d = p.enc()
+        flags = ('1' if case.get('rename') else '0') + ('1' if case.get('preserve') else '0')
+        lines.append('\t'.join(['tf'] + s + d + [flags, ','.join(vf.hexs(x) for x in top), ','.join(vf.hexs(x) for x in bot),
+                                                ','.join(vf.hexs(x) for x in incols), sblocks, rocks, '-' if pb is None else vf.hexs(pb),
+                                                ','.join('%s=%s' % (vf.hexs(b.name), G.qstr(b.volume)) for b in dgrid.blocklist), encg, inc]))
+    out = drive(exe, lines) if lines else []
+    res = {}
+    h = lambda x: bytes.fromhex(x).decode('latin-1')
+    for (p, case), mo, im in zip(jobs, out, impl):
+        c = dict(case, src=p.sspec, dst=p.dspec, kind='data')
+        k = im[0] if im[0] == 'ok' else 'raise ' + im[1]
+        res[k] = res.get(k, 0) + 1
+        if mo.startswith('RAISE '):
+            if im != ('raise', mo[6:]): ctx.disagreement(name, c, mo, repr(im)[:300])
+            continue
+        f = mo.split('\t')
+        if im[0] != 'ok' or f[0] != 'OK' or len(f) != 6:
+            ctx.disagreement(name, c, mo[:300], repr(im)[:300]); continue
+        mrock = [tuple(h(y) for y in x.split('=')) for x in f[1].split(',')] if f[1] else []
+        mrl = [h(x) for x in f[2].split(',')] if f[2] else []
+        mpb = None if f[3] == '-' else h(f[3])
+        mg = [dec_gen(x) for x in f[4].split(',')] if f[4] else []
+        minc = [(h(x.split('=')[0]), int(x.split('=')[1])) for x in f[5].split(',')] if f[5] else []
+        if mrock != im[1] or mrl != im[2] or mpb != im[3] or minc != im[5]:
+            d1 = [(a, b) for a, b in zip(mrock, im[1]) if a != b][:2]
+            ctx.disagreement(name, c, 'rock %r list %r print %r incon %r' % (d1, mrl, mpb, minc[:4]),
+                             'rock %r list %r print %r incon %r' % ([b for a, b in d1], im[2], im[3], im[5][:4]))
+        elif len(mg) != len(im[4]) or any(not gens_close(a, b) for a, b in zip(mg, im[4])):
+            dd = [(a[:3], b[:3]) for a, b in zip(mg, im[4]) if not gens_close(a, b)][:2]
+            ctx.disagreement(name, c, '%d generators; first differences (model, impl) %r' % (len(mg), dd), '%d generators' % len(im[4]))
+    ctx.corr_cases(name, len(jobs), implementation_results=res)
+
+
 # ---------------------------------------------------------------- oracle sweep
 def oracle(ctx, pairs, seed_base=0):
-    fam, atm, nseq = {}, {}, {}
+    fam, atm, nseq, ndata = {}, {}, {}, {}
     for i, p in enumerate(pairs):
         fam[p.family] = fam.get(p.family, 0) + 1
         k = '%d->%d' % (G.atm_code(p.src), G.atm_code(p.dst)); atm[k] = atm.get(k, 0) + 1
@@ -342,6 +418,10 @@ def oracle(ctx, pairs, seed_base=0):
             case = {'kind': 'generators', 'geo': p.sspec, 'gseed': seed_base + i, 'rename': bool(i & 1), 'preserve': bool(i & 2)}
             O.check_generators_identity(ctx, case, p.src, O.identical_copy(p.sspec, p.src, ctx.repo))
         if p.src.num_blocks + p.dst.num_blocks <= 4000:
+            case = {'kind': 'data', 'src': p.sspec, 'dst': p.dspec, 'gseed': seed_base + 900 + i, 'rename': bool(i & 1), 'preserve': bool(i & 2)}
+            r = O.check_data_transfer(ctx, case, p.src, p.dst)
+            ndata[r or 'skipped-or-failed'] = ndata.get(r or 'skipped-or-failed', 0) + 1
+        if p.src.num_blocks + p.dst.num_blocks <= 4000:
             # object history: compute mappings, then move / re-surface the same objects in place, evaluate again
             r = random.Random(1000003 * (seed_base + 1) + i)
             s2, d2 = G.build_geo(p.sspec, ctx.repo), G.build_geo(p.dspec, ctx.repo)
@@ -355,6 +435,7 @@ def oracle(ctx, pairs, seed_base=0):
     ctx.oracle_cases('self-mapping-identity', len(pairs))
     ctx.oracle_cases('incon-transfer', len(pairs))
     ctx.oracle_cases('generator-transfer-identity', len(pairs))
+    ctx.oracle_cases('model-transfer', sum(ndata.values()), results=ndata)
     ctx.oracle_cases('statement-after-in-place-moves', sum(nseq.values()), source_edit_after_first_mapping=nseq)
 
 
@@ -381,7 +462,7 @@ def run(ctx):
                         'source t2incon lists its blocks in the geometry block order (sourceinc[0] is the atmosphere block for a type-0 source)',
                         "transfer_generators_from: incols (point-in-column search) and grid block volumes are inputs of the model, taken from the implementation"]
     ctx.stage()
-    ok = ctx.coq_build(timeout=600)
+    ok = ctx.coq_build(props=('Props.v', 'Props2.v'), timeout=600)
     exe = vf.build_driver(ctx)
     n = 1200 if ctx.thorough else 150
     t0 = time.time()
@@ -422,6 +503,7 @@ def run(ctx):
                 if len(uc) != p.dst.num_columns or len(cl) != p.dst.num_layers - 1: continue
                 gjobs.append((p, {'gseed': 500 + lo + i, 'rename': bool((lo + i) & 1), 'preserve': bool((lo + i) & 2)}))
             correspond_generators(ctx, exe, gjobs)
+            correspond_data(ctx, exe, [(p, dict(c, gseed=c['gseed'] + 300)) for p, c in gjobs])
         ctx.log('correspondence done at %.1fs' % (time.time() - ctx.t0))
     oracle(ctx, pairs)
 
@@ -442,6 +524,8 @@ def replay(ctx, data):
     if kind == 'generators':
         g1 = G.build_geo(inp['geo'], ctx.repo); g2 = O.identical_copy(inp['geo'], g1, ctx.repo)
         O.check_generators_identity(ctx, inp, g1, g2)
+    elif kind == 'data':
+        O.check_data_transfer(ctx, inp, G.build_geo(inp['src'], ctx.repo), G.build_geo(inp['dst'], ctx.repo))
     elif kind == 'sequence':
         O.check_sequence(ctx, inp, G.build_geo(inp['src'], ctx.repo), G.build_geo(inp['dst'], ctx.repo), ctx.repo)
     else:
